@@ -1,0 +1,37 @@
+//go:build verif
+
+// Machine-checked contracts for package datamatrix (comment-only; read by /verif/govc).
+package datamatrix
+
+// ---- stage contracts used while unwinding the size selection of EncodeWithColor: the stages
+// are abstracted to "fresh codewords of this length" / "a fresh symbol"; their own behaviour is
+// verified separately (render, calcECC: complete unwinding per size; encodeText, addPadding: see
+// their own contracts / the bounded stand-in).
+// (These abstractions are only used by the unwinding driver "select"; other drivers call the
+// real functions.)
+
+//@ define dmDataCW(s *dmCodeSize) int = ((((s.Columns - s.RegionCountHorizontal*2) / s.RegionCountHorizontal) * s.RegionCountHorizontal)
+//@      * (((s.Rows - s.RegionCountVertical*2) / s.RegionCountVertical) * s.RegionCountVertical)) / 8 - s.ECCCount
+
+//@ func encodeText
+//@   attr unwind_abstract select
+//@   attr fresh_result ? 0 256
+//@   ensures fresh(result)
+
+//@ func addPadding
+//@   attr unwind_abstract select
+//@   attr fresh_result toCount 0 256
+//@   requires len(data) <= toCount
+//@   ensures len(result) == toCount
+
+//@ func (*errorCorrection).calcECC
+//@   attr unwind_abstract select
+//@   attr fresh_result (len(data)+size.ECCCount) 0 256
+//@   requires size != nil
+//@   ensures len(result) == len(data) + size.ECCCount
+
+//@ func render
+//@   attr unwind_abstract select
+//@   attr fresh_object yes
+//@   requires size != nil && len(data) == dmDataCW(size) + size.ECCCount
+//@   ensures result != nil && result.dmCodeSize == size && result.color == color
